@@ -426,11 +426,11 @@ func polling(repo, file, name string) pollSites {
 
 // the errno classification of el.accept / el.accept0: `switch err { case nil: case unix.X, ...: return nil | continue
 // default: return errors.ErrAcceptSocket }` -> the tolerated errno names (lower case, sorted)
-func acceptClass(repo, fn, name string) []string {
+func acceptClass(repo, fn, name string) (done, retry []string) {
 	f, err := parser.ParseFile(fset, filepath.Join(repo, "acceptor_unix.go"), nil, 0)
 	if err != nil {
 		fail(name, "parse error: "+err.Error())
-		return nil
+		return nil, nil
 	}
 	for _, d := range f.Decls {
 		fd, ok := d.(*ast.FuncDecl)
@@ -446,9 +446,8 @@ func acceptClass(repo, fn, name string) []string {
 		})
 		if sw == nil {
 			fail(name, "no `switch err` in "+fn)
-			return nil
+			return nil, nil
 		}
-		var tol []string
 		sawDefault := false
 		for _, cc := range sw.Body.List {
 			c := cc.(*ast.CaseClause)
@@ -476,8 +475,10 @@ func acceptClass(repo, fn, name string) []string {
 					continue
 				}
 				switch {
-				case last == "return nil" || last == "continue":
-					tol = append(tol, strings.ToLower(strings.TrimPrefix(x, "unix.")))
+				case last == "return nil":
+					done = append(done, strings.ToLower(strings.TrimPrefix(x, "unix.")))
+				case last == "continue":
+					retry = append(retry, strings.ToLower(strings.TrimPrefix(x, "unix.")))
 				case strings.HasPrefix(last, "return ") && strings.HasSuffix(last, "ErrAcceptSocket"):
 				default:
 					fail(name, "branch outside the subset: "+last)
@@ -487,11 +488,12 @@ func acceptClass(repo, fn, name string) []string {
 		if !sawDefault {
 			fail(name, "the accept error switch has no default branch")
 		}
-		sort.Strings(tol)
-		return tol
+		sort.Strings(done)
+		sort.Strings(retry)
+		return done, retry
 	}
 	fail(name, fn+" not found in acceptor_unix.go")
-	return nil
+	return nil, nil
 }
 
 // every mention of an errno constant (unix.E*, not the EPOLL* masks) in the loop's I/O code, per function
@@ -580,8 +582,10 @@ func main() {
 	prog := processIO(repo)
 	pd := polling(repo, "poller_epoll_default.go", "polling_default_sentinels")
 	pu := polling(repo, "poller_epoll_ultimate.go", "polling_ultimate_sentinels")
-	acc := acceptClass(repo, "accept", "accept_errors_as_modelled")
-	acc0 := acceptClass(repo, "accept0", "accept_errors_as_modelled")
+	// el.accept serves a level-triggered listener (returning is enough); el.accept0 an edge-triggered one
+	// (it must go on accepting after a transient failure)
+	accDone, accRetry := acceptClass(repo, "accept", "accept_errors_as_modelled")
+	acc0Done, acc0Retry := acceptClass(repo, "accept0", "accept_errors_as_modelled")
 	iov, ok := intConst(repo, "eventloop_unix.go", "iovMax")
 	if !ok {
 		fail("iov_max_as_modelled", "const iovMax not found as an integer literal in eventloop_unix.go")
@@ -612,8 +616,9 @@ func main() {
 		fmt.Fprintf(&b, "Definition gen_%s_wait_retry : list string := %s.\n", x.n, coqStrs(x.ps.retry))
 		fmt.Fprintf(&b, "Lemma polling_%s_sentinels :\n  gen_%s_callback_sites = [polling_callback_sentinels] /\\ gen_%s_task_sites = [polling_task_sentinels; polling_task_sentinels] /\\ gen_%s_wait_retry = polling_wait_retry.\nProof. vm_compute. repeat split; reflexivity. Qed.\n\n", x.n, x.n, x.n, x.n)
 	}
-	fmt.Fprintf(&b, "Definition gen_accept_tolerated : list string := %s.\nDefinition gen_accept0_tolerated : list string := %s.\n", coqStrs(acc), coqStrs(acc0))
-	b.WriteString("Lemma accept_errors_as_modelled : gen_accept_tolerated = accept_tolerated /\\ gen_accept0_tolerated = accept_tolerated.\nProof. vm_compute. split; reflexivity. Qed.\n")
+	fmt.Fprintf(&b, "Definition gen_accept_done : list string := %s.\nDefinition gen_accept_retry : list string := %s.\n", coqStrs(accDone), coqStrs(accRetry))
+	fmt.Fprintf(&b, "Definition gen_accept0_done : list string := %s.\nDefinition gen_accept0_retry : list string := %s.\n", coqStrs(acc0Done), coqStrs(acc0Retry))
+	b.WriteString("Lemma accept_errors_as_modelled :\n  gen_accept_done = accept_tolerated /\\ gen_accept_retry = [] /\\ gen_accept0_done = accept0_done /\\ gen_accept0_retry = accept0_retry.\nProof. vm_compute. repeat split; reflexivity. Qed.\n")
 	sites := errnoSites(repo, []string{"eventloop_unix.go", "connection_unix.go", "connection_linux.go"})
 	var ss []string
 	for _, x := range sites {
